@@ -1,9 +1,8 @@
+\* The connected-directions criterion as found (before fix 4514eff).  Expected result: OldHeuristicSound is VIOLATED
+\* (e.g. 3x3x1 cells, periodic in x and z only, two vacant sites: direction y is named).  Kept as a refuted variant.
 SPECIFICATION Spec
-CONSTANTS Sizes <- SizeCatalogue
+CONSTANTS Sizes <- SmallCatalogue
+ MaxVac = 2
  Dim3 = TRUE
-INVARIANT NoOverride
-INVARIANT Complete
-INVARIANT EachAtomOnce
-INVARIANT OldHeuristicExact
-INVARIANT Bounded
+INVARIANT OldHeuristicSound
 CHECK_DEADLOCK FALSE
